@@ -236,6 +236,13 @@ def run(ctx, widen=False):
         lines.append(f"ls\trle|{S(cs)}|"); exp.append(safe(lambda: [[ord(c), n] for c, n in E.run_length_encoding(st, CTX)]))
         if st:
             lines.append(f"ls\trlerld|{S(cs)}|"); exp.append(safe(lambda: [ord(c) for c in E.run_length_decoding(E.run_length_encoding(st, CTX), CTX)]))
+    # cartesian product: the diagonal walk (theorems cartesian_diagonals / cartesian_perm), on lists and on lazy lists
+    from vyxal.LazyList import LazyList as _LL
+    cshort = [x for x in lists if len(x) <= 4]
+    for a in cshort[:: (3 if thorough else 9)]:
+        for b in cshort[:: (5 if thorough else 11)]:
+            lines.append(f"ls\tcartesian|{S(a)}|{S(b)}"); exp.append(safe(lambda: E.cartesian_product(list(a), list(b), CTX)))
+            lines.append(f"ls\tcartesianlazy|{S(a)}|{S(b)}"); exp.append(safe(lambda: E.cartesian_product(_LL(iter(list(a))), _LL(iter(list(b))), CTX)))
     out = ctx.driver(lines)
     ctx.count("corr:list-models", len(lines))
     for l, e, o in zip(lines, exp, out):
